@@ -17,7 +17,7 @@ def check(run):
     quick = run.tier == 'quick'
     run.rule = ('generated DAGs x store states (arbitrary subsets of results present - closed under dependencies or not - and arbitrary held/failed locks) x backends (file, file+pack, in-memory, redis protocol): the '
                 'table printed by the real `jug status` (all five columns per task name and the Total row) uncached and cached, and the exit status of the real check walk, compared with the Lean model and with the '
-                'property; cached mode along monotone histories of 3-5 states with an on-disk cache file; non-trivial = the state has complete, waiting and at least one locked runnable task; distinct by (program, state)')
+                'property; cached mode along monotone histories of 3-5 states with an on-disk cache file; the stores `jug invalidate` leaves behind (all complete but one task and what is built on it) for the check walk; non-trivial = the state has complete, waiting and at least one locked runnable task; distinct by (program, state)')
     run.assumptions = ['direct dependencies = what Task.dependencies() reports (its agreement with the results a task really reads is C03)', 'between cached calls results are only added and the jugfile is unchanged',
                        'check: stores closed under dependencies (what execute/invalidate/cleanup produce)']
     run.trusted = ['Lean 4.33.0 kernel', 'axioms propext, Classical.choice, Quot.sound', 'harness/jugverif/extract_status.py (exhaustive table of the real update_status)', 'harness/jugverif/graphcheck.py']
@@ -131,6 +131,34 @@ def check(run):
                         run.fail('status-wrong', '`jug status` prints %s / %s, state implies %s / %s' % (r_unc, t_unc, e_rows, e_total), rp2)
                 if len(run.samples) < 2 and nontriv:
                     run.sample({'program': prog.text.split('\n')[2:], 'backend': kind, 'present': sorted(present), 'locks': locks, 'printed_rows': rows, 'total': total})
+            # the stores `jug invalidate` leaves behind: everything complete except one task and all that is built on it
+            # (the incomplete tasks may sit anywhere in definition order, e.g. before a covered ancestor of a later sink)
+            for vi in (range(n) if not quick else rng.sample(range(n), min(n, 4))):
+                gone = {vi}
+                grew = True
+                while grew:
+                    grew = False
+                    for j in range(n):
+                        if j not in gone and (set(P['info'][j]['reported']) | set(P['info'][j]['reads'])) & gone:
+                            gone.add(j)
+                            grew = True
+                be = G.GBackend(['dict', 'file'][vi % 2], d, 'inv%d' % vi)
+                present = set(range(n)) - gone
+                G.put_state(P, be, present, {})
+                res, lk = G.observe(P, be)
+                rc = G.real_check(P, be)
+                run.case(('after-invalidate', pi, vi, run.seed), nontrivial=0 < len(present) < n)
+                run.count('after_invalidate_states')
+                rp = {'kind': 'check-after-invalidate', 'program': prog.text, 'invalidated': vi, 'present': sorted(present)}
+                if (rc == 0) != all(res):
+                    run.fail('check-wrong', '`jug check` exits %d after task #%d (%s) and what is built on it were invalidated: %d of %d tasks are complete (status would show the rest as not complete)'
+                             % (rc, vi, P['names'][vi], sum(res), n), rp)
+                if drv is not None:
+                    ans = drv.ask({'op': 'graph', 'n': n, 'deps': [inf['reported'] for inf in P['info']], 'hit': [False] * n, 'res': res, 'locks': lk, 'prev': ['unknown'] * n})
+                    run.corr_programs += 1
+                    if ans['check'] != (rc == 0):
+                        run.corr_disagreements += 1
+                        run.obligation('correspondence status/check model=code', False, 'model check %s; code rc %s; case %s' % (ans['check'], rc, json.dumps(rp)[:300]))
             core.rm_rf(d)
         if drv is not None and run.corr_disagreements == 0:
             run.obligation('correspondence: %d printed status tables / check exit codes equal the model' % run.corr_programs, True)
